@@ -693,6 +693,34 @@ def executed : List Task → List Task
   | [] => []
   | t :: ts => if ts.any (fun u => u.path == t.path && u.base == t.base) then executed ts else t :: executed ts
 
+/-! ## 6b. Tasks defined by a running task generator (`provisional.py:57-118`) -/
+
+/-- a function a task generator wrapped with `@task` while it ran; `uncollectable` = `pytask_collect_task_protocol`
+returns a failed report for it (both priorities, an unparseable dependency, …). -/
+structure Child where
+  name : String
+  tag : Nat
+  uncollectable : Bool := false
+
+def childReports (path : Path) (gen : Nat) : Nat → List Child → List Report
+  | _, [] => []
+  | i, c :: rest => (if c.uncollectable then Report.fail else Report.succ path c.name (gen, i)) :: childReports path gen (i + 1) rest
+
+/-- Read from b-c18's translator fact `Generated.Prv.genSteps` (statements of the generator branch of
+`provisional.pytask_execute_task`): a statement sits between collecting the children and `session.tasks.extend` —
+the loop that raises the first failed report's exception (fix f1fcb9a, F35; the translator accepts nothing else there). -/
+def genRaisesOnFailedChild : Bool :=
+  match Generated.Prv.genSteps.dropWhile (fun s => s != Generated.Prv.GStep.collectEach) with
+  | _ :: Generated.Prv.GStep.extendTasks :: _ => false
+  | _ :: _ :: _ => true
+  | _ => false
+
+/-- the part of the generator branch after the children were collected: `none` = the generator fails (its task is
+reported FAIL, the build does not end with exit code 0); otherwise the successfully collected children join
+`session.tasks`. -/
+def generatorCollect (raiseOnFail : Bool) (rs : List Report) : Option (List Report) :=
+  if raiseOnFail && rs.any Report.isFail then none else some (rs.filter (fun r => !r.isFail))
+
 /-! ## 7. Shortest unique names (`collect.py:551-590`) -/
 
 abbrev TKey := Path × String
